@@ -13,11 +13,24 @@
 //!   arrangement returns false and leaves the ascending order.  `iter_permutations`: that list, exactly.
 //! * `iter_neighbours_{4,4d,8}`: all grids 0..=6 x 0..=6, all cells: the exact list in the fixed order
 //!   documented by the crate's own tests.
+//! * the iterator protocol (`protocol.rs`): the passes above read every iterator with `next()` only.  For every
+//!   iterator the crate hands out (submasks, supermasks of all 12 integer types, `iter_permutations`, the three
+//!   neighbour iterators) a family of inputs that keeps every type, sign class, size class and repeated-element
+//!   shape is consumed in every std way (`fold`, `for_each`, `count`, `last`, `sum`, `product`, `min`, `max`,
+//!   `reduce`, `collect` into Vec / BTreeSet / HashSet, `eq`, `nth`, `skip`, `step_by`, `take` + rest, `all`,
+//!   `any`, `find`, `position`, `zip`, `chain`, `peekable`, `fuse`, `size_hint`), fresh and after j `next()`
+//!   calls, and must show the definition's sequence every time.
+//! * every call into the crate runs on a watched thread (`guard.rs`): one that does not return becomes the
+//!   verdict "does not terminate" (and replays as such) instead of a hung check.
 
-use rayon::prelude::*;
+mod guard;
+mod protocol;
+
+use protocol::{describe_notes, protocol_case, Report, N_USES, USE_NAMES};
 use rlib_iter::{iter_neighbours_4, iter_neighbours_4d, iter_neighbours_8, iter_permutations, iter_submasks, iter_supermasks, next_permutation};
 use std::collections::{BTreeMap, BTreeSet};
 use std::fmt::Debug;
+use std::sync::Arc;
 use vcore::*;
 
 fn die(msg: &str) -> ! {
@@ -400,9 +413,13 @@ fn mask_case(ty: usize, dir: Dir, x: u128, idx: usize) -> MaskStats {
     }
 }
 
-fn run_masks(ty: usize, dir: Dir, space: &Space) -> MaskStats {
+/// Every mask of the space, each on a watched worker thread: (statistics of the masks that completed, the
+/// smallest mask on which the iterator did not return).
+fn run_masks(ty: usize, dir: Dir, space: &Arc<Space>) -> (MaskStats, Option<(u128, guard::Hang)>) {
     let w = TYPES[ty].bits;
-    (0..space.len()).into_par_iter().map(|idx| mask_case(ty, dir, space.mask(idx, dir, w), idx)).reduce(MaskStats::default, MaskStats::merge)
+    let sp = space.clone();
+    let (done, hang) = guard::map(space.len(), 64, false, move |idx| mask_case(ty, dir, sp.mask(idx, dir, w), idx)).completed();
+    (done.into_iter().fold(MaskStats::default(), MaskStats::merge), hang.map(|h| (space.mask(h.index, dir, w), h)))
 }
 
 // =================================================================================================
@@ -596,60 +613,61 @@ fn is_sorted<T: Ord>(w: &[T]) -> bool {
     w.windows(2).all(|p| p[0] <= p[1])
 }
 
-fn np_pass<'l, T, F>(inputs: &[Vec<T>], list_of: F) -> PStats
+/// `next_permutation` once on every input, each on a watched worker thread: (statistics of the inputs that
+/// completed, the first input on which the call did not return).
+fn np_pass<T, F>(inputs: &'static [Vec<T>], list_of: F) -> (PStats, Option<guard::Hang>)
 where
-    T: Ord + Clone + Debug + Send + Sync + 'l,
-    F: Fn(&[T]) -> &'l [Vec<T>] + Sync,
+    T: Ord + Clone + Debug + Send + Sync + 'static,
+    F: Fn(&[T]) -> &'static [Vec<T>] + Send + Sync + 'static,
 {
-    inputs
-        .par_iter()
-        .enumerate()
-        .map(|(idx, w)| {
-            let mut s = PStats::default();
-            s.c[NP_CASES] = 1;
-            s.c[NP_TIE] = tie_sensitive(w) as u64;
-            s.c[NP_DUP] = has_dup(w) as u64;
-            match check_next(w, list_of(w)) {
-                Ok(o) => {
-                    s.c[if o.ret { NP_TRUE } else { NP_FALSE }] = 1;
-                    s.c[NP_DEEP] = o.deep as u64;
-                }
-                Err(m) => {
-                    s.bad = 1;
-                    s.first = Some((idx, m));
-                }
+    let (done, hang) = guard::map(inputs.len(), 16, false, move |idx| {
+        let w = &inputs[idx];
+        let mut s = PStats::default();
+        s.c[NP_CASES] = 1;
+        s.c[NP_TIE] = tie_sensitive(w) as u64;
+        s.c[NP_DUP] = has_dup(w) as u64;
+        match check_next(w, list_of(w)) {
+            Ok(o) => {
+                s.c[if o.ret { NP_TRUE } else { NP_FALSE }] = 1;
+                s.c[NP_DEEP] = o.deep as u64;
             }
-            s
-        })
-        .reduce(PStats::default, PStats::merge)
+            Err(m) => {
+                s.bad = 1;
+                s.first = Some((idx, m));
+            }
+        }
+        s
+    })
+    .completed();
+    (done.into_iter().fold(PStats::default(), PStats::merge), hang)
 }
 
-fn ip_pass<'l, T, F>(inputs: &[Vec<T>], list_of: F) -> PStats
+/// `iter_permutations` read with `next()` once on every input, each on a watched worker thread.
+fn ip_pass<T, F>(inputs: &'static [Vec<T>], list_of: F) -> (PStats, Option<guard::Hang>)
 where
-    T: Ord + Clone + Debug + Send + Sync + 'l,
-    F: Fn(&[T]) -> &'l [Vec<T>] + Sync,
+    T: Ord + Clone + Debug + Send + Sync + 'static,
+    F: Fn(&[T]) -> &'static [Vec<T>] + Send + Sync + 'static,
 {
-    inputs
-        .par_iter()
-        .enumerate()
-        .map(|(idx, w)| {
-            let mut s = PStats::default();
-            s.c[IP_CASES] = 1;
-            s.c[IP_UNSORTED] = !is_sorted(w) as u64;
-            s.c[IP_DUP] = has_dup(w) as u64;
-            match check_iter(w, list_of(w)) {
-                Ok(n) => {
-                    s.c[IP_ITEMS] = n;
-                    s.c[IP_NONTRIVIAL] = (n >= 3) as u64;
-                }
-                Err(m) => {
-                    s.bad = 1;
-                    s.first = Some((idx, m));
-                }
+    let (done, hang) = guard::map(inputs.len(), 16, false, move |idx| {
+        let w = &inputs[idx];
+        let mut s = PStats::default();
+        s.c[IP_CASES] = 1;
+        s.c[IP_UNSORTED] = !is_sorted(w) as u64;
+        s.c[IP_DUP] = has_dup(w) as u64;
+        match check_iter(w, list_of(w)) {
+            Ok(n) => {
+                s.c[IP_ITEMS] = n;
+                s.c[IP_NONTRIVIAL] = (n >= 3) as u64;
             }
-            s
-        })
-        .reduce(PStats::default, PStats::merge)
+            Err(m) => {
+                s.bad = 1;
+                s.first = Some((idx, m));
+            }
+        }
+        s
+    })
+    .completed();
+    (done.into_iter().fold(PStats::default(), PStats::merge), hang)
 }
 
 fn words_upto(maxlen: usize) -> Vec<Vec<u8>> {
@@ -766,49 +784,278 @@ fn check_nb(kind: &str, n: usize, m: usize, i: usize, j: usize) -> Result<(usize
 }
 
 // =================================================================================================
+// the iterator protocol: every std way of consuming, on input families that keep every class
+
+/// The protocol inputs of one mask type, as free-bit sets (x = S for submasks, x = !S for supermasks), by
+/// (size, value): 8-bit types every set; 16-bit types every set of at most 3 bits; every type of 16 bits or
+/// more every subset of at most 4 of POSITIONS below the width (the top bit is one of them) and, for every
+/// size from 5 to `max_free`, `per_size` sets without and `per_size` sets with the top bit: the first ones of
+/// that size in the order of `space_of` (so the low positions 0,1,2 and the byte boundaries 7,8 come first).
+fn protocol_space(ty: usize, max_free: u32, per_size: usize) -> Vec<u128> {
+    let w = TYPES[ty].bits;
+    let top = 1u128 << (w - 1);
+    let mut v: Vec<u128> = match w {
+        8 => (0..256).collect(),
+        16 => (0..65536u128).filter(|m| m.count_ones() <= 3).collect(),
+        _ => vec![],
+    };
+    if w > 8 {
+        let pos: u128 = POSITIONS.iter().filter(|&&p| p < w).map(|&p| 1u128 << p).sum();
+        let structured: Vec<u128> = if w == 16 {
+            let mut s: Vec<u128> = (0..65536u128).filter(|m| m & !pos == 0).collect();
+            s.sort_by_key(|m| (m.count_ones(), *m));
+            s
+        } else {
+            space_of(ty, max_free, 0).subsets
+        };
+        v.extend(structured.iter().copied().filter(|m| m.count_ones() <= 4));
+        for size in 5..=max_free {
+            for with_top in [false, true] {
+                v.extend(structured.iter().copied().filter(|m| m.count_ones() == size && (m & top != 0) == with_top).take(per_size));
+            }
+        }
+    }
+    v.sort_by_key(|m| (m.count_ones(), *m));
+    v.dedup();
+    v
+}
+
+fn mask_head(ty: usize, dir: Dir, x: u128) -> String {
+    format!("{}::<{}>({})", dir.func(), TYPES[ty].name, show(ty, x))
+}
+
+/// Every way of consuming ONE real mask iterator against the list built bit by bit from the definition.
+fn mask_protocol(ty: usize, dir: Dir, x: u128, all: bool) -> Report {
+    let exp = expected_mask_list(dir, x, TYPES[ty].bits);
+    // the position where the items cross the top (sign) bit, if it is free; the middle otherwise
+    let marks = [exp.len() / 2];
+    macro_rules! go {
+        ($t:ty, $u:ty) => {{
+            let xv = x as $u as $t;
+            let reference: Vec<$t> = exp.iter().map(|&b| b as $u as $t).collect();
+            match dir {
+                Dir::Sub => protocol_case!(|| iter_submasks(xv), &reference, &marks, all),
+                Dir::Sup => protocol_case!(|| iter_supermasks(xv), &reference, &marks, all),
+            }
+        }};
+    }
+    match ty {
+        0 => go!(u8, u8),
+        1 => go!(i8, u8),
+        2 => go!(u16, u16),
+        3 => go!(i16, u16),
+        4 => go!(u32, u32),
+        5 => go!(i32, u32),
+        6 => go!(u64, u64),
+        7 => go!(i64, u64),
+        8 => go!(usize, usize),
+        9 => go!(isize, usize),
+        10 => go!(u128, u128),
+        11 => go!(i128, u128),
+        _ => unreachable!(),
+    }
+}
+
+fn perm_protocol<T: Ord + Clone + Debug + std::hash::Hash>(w: &[T], l: &[Vec<T>], all: bool) -> Report {
+    protocol_case!(|| iter_permutations(w.to_vec()), l, &[l.len() / 2], all)
+}
+
+fn nb_protocol(kind: &str, n: usize, m: usize, i: usize, j: usize, all: bool) -> Report {
+    let exp = nb_expected(kind, n, m, i, j);
+    match kind {
+        "neighbours_4" => protocol_case!(|| iter_neighbours_4(n, m, i, j), &exp, &[], all),
+        "neighbours_4d" => protocol_case!(|| iter_neighbours_4d(n, m, i, j), &exp, &[], all),
+        _ => protocol_case!(|| iter_neighbours_8(n, m, i, j), &exp, &[], all),
+    }
+}
+
+/// What the protocol pass of one iterator family compared.
+#[derive(Default)]
+struct ProtoAgg {
+    inputs: u64,
+    failing_inputs: u64,
+    cases: [u64; N_USES],
+    inputs_with_3_or_more_items: u64,
+    inputs_on_the_grid_of_marks: u64,
+    longest: usize,
+    behind_the_end: u64,
+    traits: [bool; 3],
+}
+
+impl ProtoAgg {
+    fn add(&mut self, r: &Report) {
+        self.inputs += 1;
+        self.failing_inputs += !r.failures.is_empty() as u64;
+        for (a, b) in self.cases.iter_mut().zip(r.cases) {
+            *a += b;
+        }
+        self.inputs_with_3_or_more_items += (r.len >= 3) as u64;
+        self.inputs_on_the_grid_of_marks += !r.full_grid as u64;
+        self.longest = self.longest.max(r.len);
+        self.behind_the_end += r.behind_the_end;
+        for t in 0..3 {
+            self.traits[t] |= r.traits[t];
+        }
+    }
+    fn merge(&mut self, o: &ProtoAgg) {
+        self.inputs += o.inputs;
+        self.failing_inputs += o.failing_inputs;
+        for (a, b) in self.cases.iter_mut().zip(o.cases) {
+            *a += b;
+        }
+        self.inputs_with_3_or_more_items += o.inputs_with_3_or_more_items;
+        self.inputs_on_the_grid_of_marks += o.inputs_on_the_grid_of_marks;
+        self.longest = self.longest.max(o.longest);
+        self.behind_the_end += o.behind_the_end;
+        for t in 0..3 {
+            self.traits[t] |= o.traits[t];
+        }
+    }
+    fn total(&self) -> u64 {
+        self.cases.iter().sum()
+    }
+    /// every way of consuming that does not depend on an optional trait was exercised
+    fn complete(&self) -> bool {
+        self.cases[..protocol::ORD_BACK].iter().all(|&c| c > 0) && self.behind_the_end > 0
+    }
+    fn json(&self) -> Value {
+        let per: serde_json::Map<String, Value> = USE_NAMES.iter().zip(self.cases).filter(|(_, c)| *c > 0).map(|(u, c)| (u.to_string(), json!(c))).collect();
+        json!({
+            "inputs": self.inputs, "failing_inputs": self.failing_inputs, "cases": self.total(), "cases_per_way_of_consuming": per,
+            "inputs_with_3_or_more_items": self.inputs_with_3_or_more_items,
+            "inputs_judged_on_the_grid_of_marks_because_longer_than_the_full_grid_bound": self.inputs_on_the_grid_of_marks, "full_grid_bound_items": protocol::FULL_GRID_MAX,
+            "longest_sequence": self.longest, "cases_aiming_behind_the_end": self.behind_the_end,
+            "iterator_type_shows_DoubleEnded_ExactSize_Fused": self.traits,
+        })
+    }
+}
+
+/// `job(idx)` for every input of a family on watched worker threads: (what was compared, the first failing
+/// input, the first input on which a call did not return).
+fn run_protocol(n: usize, chunk: usize, job: impl Fn(usize) -> Report + Send + Sync + 'static) -> (ProtoAgg, Option<(usize, protocol::Failure)>, Option<guard::Hang>) {
+    let (done, hang) = guard::map(n, chunk, false, job).completed();
+    let mut agg = ProtoAgg::default();
+    let mut first = None;
+    for (idx, r) in done.iter().enumerate() {
+        agg.add(r);
+        if first.is_none() {
+            if let Some(f) = r.failures.first() {
+                first = Some((idx, f.clone()));
+            }
+        }
+    }
+    (agg, first, hang)
+}
+
+fn protocol_violation(family: &str, input: &str, head: &str, replay: Value, f: &protocol::Failure, failing: u64) -> Violation {
+    Violation::new(
+        format!("{family}_consumed:{input}:pre={}:{}", f.pre, f.short),
+        format!("{head}: {} [{failing} failing inputs in the protocol pass of this iterator]", f.message),
+        replay,
+    )
+}
+
+fn protocol_hang(family: &str, input: &str, head: &str, replay: Value, h: &guard::Hang) -> Violation {
+    let (short, pre, long) = describe_notes(h.notes);
+    Violation::new(format!("{family}_consumed:{input}:pre={pre}:{short}"), format!("{head}: {long}: {}", h.text()), replay)
+}
+
+// =================================================================================================
 // replay
 
 fn parse_hex(s: &str) -> u128 {
     u128::from_str_radix(s.trim_start_matches("0x"), 16).unwrap_or_else(|_| die("replay: bad hex mask"))
 }
 
-fn confirm(v: &Value) -> Result<(), String> {
+/// A recorded case, parsed (no code under test involved).
+enum Case {
+    Mask { ty: usize, dir: Dir, x: u128 },
+    SeqU8(Vec<u8>),
+    SeqI32(Vec<i32>),
+    Cell { kind: &'static str, g: [usize; 4] },
+}
+
+/// (the case, its family without the `_consumed` suffix, whether it is a protocol case)
+fn parse_case(v: &Value) -> (Case, String, bool) {
     let kind = v["kind"].as_str().unwrap_or_else(|| die("replay: no kind"));
-    match kind {
+    let (base, consumed) = match kind.strip_suffix("_consumed") {
+        Some(b) => (b, true),
+        None => (kind, false),
+    };
+    let case = match base {
         "submasks" | "supermasks" => {
             let tname = v["type"].as_str().unwrap_or_else(|| die("replay: no type"));
             let ty = TYPES.iter().position(|t| t.name == tname).unwrap_or_else(|| die("replay: unknown type"));
-            diagnose_mask(ty, Dir::parse(kind), parse_hex(v["bits"].as_str().unwrap_or_else(|| die("replay: no bits"))))
+            let x = parse_hex(v["bits"].as_str().unwrap_or_else(|| die("replay: no bits"))) & width_mask(TYPES[ty].bits);
+            Case::Mask { ty, dir: Dir::parse(base), x }
         }
         "next_permutation" | "iter_permutations" => {
             let data: Vec<i64> = v["data"].as_array().unwrap_or_else(|| die("replay: no data")).iter().map(|x| x.as_i64().unwrap_or_else(|| die("replay: bad element"))).collect();
             // the element type only matters for Ord, which all integer types share
             match v["elem"].as_str() {
-                Some("u8") => {
-                    let w: Vec<u8> = data.iter().map(|&x| x as u8).collect();
-                    let l = arrangements(&w);
-                    if kind == "next_permutation" {
-                        check_next(&w, &l).map(|_| ())
-                    } else {
-                        check_iter(&w, &l).map(|_| ())
-                    }
-                }
-                _ => {
-                    let w: Vec<i32> = data.iter().map(|&x| x as i32).collect();
-                    let l = arrangements(&w);
-                    if kind == "next_permutation" {
-                        check_next(&w, &l).map(|_| ())
-                    } else {
-                        check_iter(&w, &l).map(|_| ())
-                    }
-                }
+                Some("u8") => Case::SeqU8(data.iter().map(|&x| x as u8).collect()),
+                _ => Case::SeqI32(data.iter().map(|&x| x as i32).collect()),
             }
         }
-        k if NB_KINDS.contains(&k) => {
+        k => {
+            let kind = NB_KINDS.iter().copied().find(|n| *n == k).unwrap_or_else(|| die("replay: unknown kind"));
             let g = |key: &str| v[key].as_u64().unwrap_or_else(|| die("replay: missing grid coordinate")) as usize;
-            check_nb(k, g("n"), g("m"), g("i"), g("j")).map(|_| ())
+            Case::Cell { kind, g: [g("n"), g("m"), g("i"), g("j")] }
         }
-        _ => die("replay: unknown kind"),
+    };
+    if consumed && base == "next_permutation" {
+        die("replay: next_permutation is not an iterator");
+    }
+    (case, base.to_string(), consumed)
+}
+
+fn case_head(case: &Case, base: &str) -> String {
+    match case {
+        Case::Mask { ty, dir, x } => mask_head(*ty, *dir, *x),
+        Case::SeqU8(w) => format!("{base}({w:?})"),
+        Case::SeqI32(w) => format!("{base}({w:?})"),
+        Case::Cell { kind, g } => format!("iter_{kind}(n={}, m={}, i={}, j={})", g[0], g[1], g[2], g[3]),
+    }
+}
+
+fn protocol_verdict(head: &str, rep: Report) -> Result<(), String> {
+    match rep.failures.first() {
+        None => Ok(()),
+        Some(f) => Err(format!("{head}: {}{}", f.message, rep.others())),
+    }
+}
+
+/// Plain re-execution of ONE recorded case (on the calling thread).
+fn confirm_here(case: &Case, base: &str, consumed: bool) -> Result<(), String> {
+    if consumed {
+        guard::note(3, 1); // the notes a stuck call leaves behind are those of the protocol
+        let head = case_head(case, base);
+        let rep = match case {
+            Case::Mask { ty, dir, x } => mask_protocol(*ty, *dir, *x, true),
+            Case::SeqU8(w) => perm_protocol(w, &arrangements(w), true),
+            Case::SeqI32(w) => perm_protocol(w, &arrangements(w), true),
+            Case::Cell { kind, g } => nb_protocol(kind, g[0], g[1], g[2], g[3], true),
+        };
+        return protocol_verdict(&head, rep);
+    }
+    match case {
+        Case::Mask { ty, dir, x } => diagnose_mask(*ty, *dir, *x),
+        Case::SeqU8(w) if base == "next_permutation" => check_next(w, &arrangements(w)).map(|_| ()),
+        Case::SeqU8(w) => check_iter(w, &arrangements(w)).map(|_| ()),
+        Case::SeqI32(w) if base == "next_permutation" => check_next(w, &arrangements(w)).map(|_| ()),
+        Case::SeqI32(w) => check_iter(w, &arrangements(w)).map(|_| ()),
+        Case::Cell { kind, g } => check_nb(kind, g[0], g[1], g[2], g[3]).map(|_| ()),
+    }
+}
+
+/// The recorded case on a watched thread of its own: a call that does not return is reported as such.
+fn confirm(v: &Value) -> Result<(), String> {
+    let (case, base, consumed) = parse_case(v);
+    let head = case_head(&case, &base);
+    match guard::call(move || confirm_here(&case, &base, consumed)) {
+        Ok(r) => r,
+        Err(h) if h.notes[3] == 1 => Err(format!("{head}: {}: {}", describe_notes(h.notes).2, h.text())),
+        Err(h) => Err(format!("{head}: {}", h.text())),
     }
 }
 
@@ -900,9 +1147,30 @@ fn overflow_checks_on() -> bool {
 
 // =================================================================================================
 
+/// A call that does not return was met: record what is known and end the run with the violations found so
+/// far — the rest of the enumeration would meet the same call again and again.
+fn abandon(mut run: Run, evaluations: u64, what: &str) -> ! {
+    run.cov("evaluations", evaluations);
+    run.cov("distinct_nontrivial", 0u64);
+    run.cov("exhaustive", false);
+    run.cov("rule", format!("the enumeration was abandoned at a call into the crate that does not return ({what}); what it had found until then is reported, nothing is claimed about the rest"));
+    run.cov("abandoned_at_a_call_that_does_not_return", what);
+    run.sample(json!({"abandoned at": what}));
+    run.finish(&confirm)
+}
+
+/// VERIF_TIMING=1: print where the wall time goes (stderr; no influence on anything else)
+fn lap(t: &mut std::time::Instant, what: &str) {
+    if std::env::var("VERIF_TIMING").is_ok() {
+        eprintln!("timing {what}: {:.3} s", t.elapsed().as_secs_f64());
+    }
+    *t = std::time::Instant::now();
+}
+
 fn main() {
     let args = Args::parse();
     quiet_panics();
+    let mut t = std::time::Instant::now();
     if args.replay.is_some() {
         Run::replay_main(&args, &confirm);
     }
@@ -910,11 +1178,192 @@ fn main() {
     let tier = args.tier;
     let seed = args.seed;
     oracle_self_checks();
+    if let Err(m) = protocol::self_check() {
+        run.machinery_failure(&format!("iterator protocol self-check: {m}"));
+    }
+    let (watchdog_self_test_s, watchdog_clock) = guard::self_test();
 
     let mut evaluations = 0u64;
     let mut nontrivial = 0u64;
     let mut items_total = 0u64;
 
+    // ------------------------------------------------------ reference tables (no code under test)
+    let maxlen = tier.pick(6usize, 7usize);
+    let maxn = tier.pick(7usize, 8usize);
+    let words: &'static Vec<Vec<u8>> = Box::leak(Box::new(words_upto(maxlen)));
+    let mut ltab: BTreeMap<[u8; 3], Vec<Vec<u8>>> = BTreeMap::new();
+    for w in words {
+        let c = counts3(w);
+        if !ltab.contains_key(&c) {
+            let l = arrangements(w);
+            check_reference_list(&l, w);
+            // cross-check the generator with the dumbest possible one: filter all words of that length
+            let brute: Vec<Vec<u8>> = words.iter().filter(|v| v.len() == w.len() && counts3(v) == c).cloned().collect();
+            if brute != l {
+                run.machinery_failure("arrangement generator disagrees with filtering all words");
+            }
+            ltab.insert(c, l);
+        }
+    }
+    // the tables live as long as the process: worker threads that may be abandoned read them
+    let ltab: &'static BTreeMap<[u8; 3], Vec<Vec<u8>>> = Box::leak(Box::new(ltab));
+    let word_list = move |w: &[u8]| -> &'static [Vec<u8>] { &ltab[&counts3(w)][..] };
+    let plists: Vec<&'static Vec<Vec<i32>>> = (0..=maxn)
+        .map(|n| {
+            let base: Vec<i32> = (0..n as i32).collect();
+            let l = arrangements(&base);
+            check_reference_list(&l, &base);
+            &*Box::leak(Box::new(l))
+        })
+        .collect();
+
+    lap(&mut t, "self-checks and reference tables");
+    // -------------------------------------------------------------------------- iterator protocol
+    // First, so that an iterator whose next() does not return is met here, on its simplest input.
+    let proto_free = 8u32;
+    let proto_per_size = tier.pick(1usize, 16usize);
+    let mut proto_cov = serde_json::Map::new();
+    let mut proto_cases = 0u64;
+    for dir in [Dir::Sub, Dir::Sup] {
+        let mut agg = ProtoAgg::default();
+        let mut per_type = serde_json::Map::new();
+        let mut first: Option<Violation> = None;
+        let mut failing_types: Vec<&str> = vec![];
+        for ty in 0..TYPES.len() {
+            let w = TYPES[ty].bits;
+            let masks: Arc<Vec<u128>> = Arc::new(protocol_space(ty, proto_free, proto_per_size).into_iter().map(|f| if dir == Dir::Sub { f } else { width_mask(w) & !f }).collect());
+            let negative = masks.iter().filter(|&&x| TYPES[ty].signed && (x >> (w - 1)) & 1 == 1).count();
+            let ms = masks.clone();
+            let (a, bad, hang) = run_protocol(masks.len(), 4, move |idx| mask_protocol(ty, dir, ms[idx], false));
+            per_type.insert(TYPES[ty].name.into(), json!({"masks": a.inputs, "cases": a.total(), "negative_masks": negative, "failing_masks": a.failing_inputs}));
+            agg.merge(&a);
+            let replay = |x: u128| json!({"kind": format!("{}_consumed", dir.family()), "type": TYPES[ty].name, "bits": format!("{x:#x}")});
+            if let Some((idx, f)) = &bad {
+                failing_types.push(TYPES[ty].name);
+                let x = masks[*idx];
+                first.get_or_insert_with(|| protocol_violation(dir.family(), &format!("{}:{x:#x}", TYPES[ty].name), &mask_head(ty, dir, x), replay(x), f, a.failing_inputs));
+            }
+            if let Some(h) = hang {
+                let x = masks[h.index];
+                if let Some(v) = first.take() {
+                    run.violation(v);
+                }
+                run.violation(protocol_hang(dir.family(), &format!("{}:{x:#x}", TYPES[ty].name), &mask_head(ty, dir, x), replay(x), &h));
+                abandon(run, evaluations + proto_cases + agg.total(), &mask_head(ty, dir, x));
+            }
+            if bad.is_none() && (a.inputs != masks.len() as u64 || !a.complete() || a.inputs_on_the_grid_of_marks == 0 || (TYPES[ty].signed && (negative == 0 || negative == masks.len()))) {
+                run.machinery_failure(&format!("protocol pass of {} {} is vacuous or lopsided", dir.family(), TYPES[ty].name));
+            }
+        }
+        if let Some(mut v) = first {
+            v.summary = format!("{} [types with at least one failing mask: {}]", v.summary, failing_types.join(","));
+            run.violation(v);
+        }
+        proto_cases += agg.total();
+        let mut j = agg.json();
+        j["per_type"] = Value::Object(per_type);
+        proto_cov.insert(dir.family().into(), j);
+    }
+    lap(&mut t, "protocol masks");
+    {
+        // iter_permutations: every word shorter than the longest length and, of the longest length, the
+        // ascending and the descending arrangement of every multiset (the iterator sorts its input first, so
+        // the order of the input reaches it only through that sort); every permutation of up to 4 distinct
+        // elements, the ascending and the descending order of the longer ones (quick: up to 6 elements)
+        let mut agg = ProtoAgg::default();
+        let mut first: Option<Violation> = None;
+        let pwords: &'static Vec<Vec<u8>> = Box::leak(Box::new(
+            words.iter().filter(|w| w.len() < maxlen || is_sorted(w) || w.windows(2).all(|p| p[0] >= p[1])).cloned().collect(),
+        ));
+        let words = pwords;
+        let two_values_twice = words.iter().filter(|w| counts3(w).iter().filter(|&&c| c >= 2).count() >= 2).count();
+        let (a, bad, hang) = run_protocol(words.len(), 2, move |idx| perm_protocol(&words[idx], word_list(&words[idx]), false));
+        agg.merge(&a);
+        let as_i64 = |w: &[u8]| w.iter().map(|&x| x as i64).collect::<Vec<i64>>();
+        if let Some((idx, f)) = &bad {
+            let d = as_i64(&words[*idx]);
+            first = Some(protocol_violation("iter_permutations", &format!("u8:{}", serde_json::to_string(&d).unwrap()), &format!("iter_permutations({:?})", words[*idx]), json!({"kind": "iter_permutations_consumed", "elem": "u8", "data": d}), f, a.failing_inputs));
+        }
+        if let Some(h) = &hang {
+            let d = as_i64(&words[h.index]);
+            let head = format!("iter_permutations({:?})", words[h.index]);
+            if let Some(v) = first.take() {
+                run.violation(v);
+            }
+            run.violation(protocol_hang("iter_permutations", &format!("u8:{}", serde_json::to_string(&d).unwrap()), &head, json!({"kind": "iter_permutations_consumed", "elem": "u8", "data": d}), h));
+            abandon(run, evaluations + proto_cases + agg.total(), &head);
+        }
+        let mut pin: Vec<&'static Vec<i32>> = vec![];
+        for (n, l) in plists.iter().enumerate().take(tier.pick(6, maxn) + 1) {
+            if n <= 4 {
+                pin.extend(l.iter());
+            } else {
+                pin.extend([&l[0], &l[l.len() - 1]]);
+            }
+        }
+        let pin: &'static Vec<&'static Vec<i32>> = Box::leak(Box::new(pin));
+        let pl = plists.clone();
+        let (a, bad, hang) = run_protocol(pin.len(), 1, move |idx| perm_protocol(pin[idx], pl[pin[idx].len()], false));
+        agg.merge(&a);
+        let as_i64 = |w: &[i32]| w.iter().map(|&x| x as i64).collect::<Vec<i64>>();
+        if let (None, Some((idx, f))) = (&first, &bad) {
+            let d = as_i64(pin[*idx]);
+            first = Some(protocol_violation("iter_permutations", &format!("i32:{}", serde_json::to_string(&d).unwrap()), &format!("iter_permutations({:?})", pin[*idx]), json!({"kind": "iter_permutations_consumed", "elem": "i32", "data": d}), f, agg.failing_inputs));
+        }
+        if let Some(v) = first {
+            run.violation(v);
+        } else if hang.is_none() && (agg.inputs != (words.len() + pin.len()) as u64 || !agg.complete() || agg.inputs_on_the_grid_of_marks == 0 || two_values_twice == 0) {
+            run.machinery_failure("protocol pass of iter_permutations is vacuous");
+        }
+        if let Some(h) = &hang {
+            let d = as_i64(pin[h.index]);
+            let head = format!("iter_permutations({:?})", pin[h.index]);
+            run.violation(protocol_hang("iter_permutations", &format!("i32:{}", serde_json::to_string(&d).unwrap()), &head, json!({"kind": "iter_permutations_consumed", "elem": "i32", "data": d}), h));
+            abandon(run, evaluations + proto_cases + agg.total(), &head);
+        }
+        proto_cases += agg.total();
+        let mut j = agg.json();
+        j["words"] = json!(words.len());
+        j["words_with_two_values_that_each_occur_at_least_twice"] = json!(two_values_twice);
+        j["sequences_of_distinct_elements"] = json!(pin.len());
+        proto_cov.insert("iter_permutations".into(), j);
+    }
+    lap(&mut t, "protocol iter_permutations");
+    let maxgrid = 6usize;
+    let cells: &'static Vec<[usize; 4]> = Box::leak(Box::new((0..=maxgrid).flat_map(|n| (0..=maxgrid).flat_map(move |m| (0..n).flat_map(move |i| (0..m).map(move |j| [n, m, i, j])))).collect()));
+    for kind in NB_KINDS {
+        let (a, bad, hang) = run_protocol(cells.len(), 8, move |idx| {
+            let g = cells[idx];
+            nb_protocol(kind, g[0], g[1], g[2], g[3], false)
+        });
+        let input = |g: [usize; 4]| format!("n={},m={},i={},j={}", g[0], g[1], g[2], g[3]);
+        let head = |g: [usize; 4]| format!("iter_{kind}(n={}, m={}, i={}, j={})", g[0], g[1], g[2], g[3]);
+        let replay = |g: [usize; 4]| json!({"kind": format!("{kind}_consumed"), "n": g[0], "m": g[1], "i": g[2], "j": g[3]});
+        if let Some((idx, f)) = &bad {
+            let g = cells[*idx];
+            run.violation(protocol_violation(kind, &input(g), &head(g), replay(g), f, a.failing_inputs));
+        } else if hang.is_none() && (a.inputs != cells.len() as u64 || !a.complete()) {
+            run.machinery_failure(&format!("protocol pass of {kind} is vacuous"));
+        }
+        proto_cases += a.total();
+        if let Some(h) = hang {
+            let g = cells[h.index];
+            run.violation(protocol_hang(kind, &input(g), &head(g), replay(g), &h));
+            abandon(run, evaluations + proto_cases, &head(g));
+        }
+        proto_cov.insert(kind.into(), a.json());
+    }
+    evaluations += proto_cases;
+    proto_cov.insert("cases".into(), json!(proto_cases));
+    proto_cov.insert("ways_of_consuming".into(), json!(USE_NAMES));
+    proto_cov.insert(
+        "watchdog".into(),
+        json!({"clock": watchdog_clock, "processor_seconds_allowed_per_case": guard::CPU_LIMIT_S, "wall_seconds_allowed_per_case": guard::WALL_LIMIT_S,
+               "self_test": "a spinning call was reported, a returning call and a 64-index map were not", "self_test_s": (watchdog_self_test_s * 1000.0).round() / 1000.0}),
+    );
+    run.cov("iterator_protocol", Value::Object(proto_cov));
+
+    lap(&mut t, "protocol neighbours");
     // ---------------------------------------------------------------------------------------- masks
     let max_free_wide = tier.pick(8u32, 10u32);
     let max_free_16 = 16u32; // measured: the complete 16-bit space takes ~1 s on 16 cores, so quick has it too
@@ -922,9 +1371,10 @@ fn main() {
     for dir in [Dir::Sub, Dir::Sup] {
         let mut failing_types: Vec<&str> = vec![];
         let mut first: Option<(usize, u128)> = None;
+        let mut stuck: Option<(usize, u128, guard::Hang)> = None;
         for ty in 0..TYPES.len() {
-            let space = space_of(ty, max_free_wide, max_free_16);
-            let st = run_masks(ty, dir, &space);
+            let space = Arc::new(space_of(ty, max_free_wide, max_free_16));
+            let (st, hang) = run_masks(ty, dir, &space);
             evaluations += st.cases;
             nontrivial += st.nontrivial;
             items_total += st.items;
@@ -942,6 +1392,9 @@ fn main() {
                 if first.is_none() {
                     first = Some((ty, space.mask(idx, dir, TYPES[ty].bits)));
                 }
+            } else if let Some((x, h)) = hang {
+                stuck = Some((ty, x, h));
+                break;
             } else {
                 // non-vacuity per type and direction
                 let expect_cases = space.len() as u64;
@@ -951,67 +1404,77 @@ fn main() {
             }
         }
         if let Some((ty, x)) = first {
-            match diagnose_mask(ty, dir, x) {
-                Ok(()) => run.machinery_failure(&format!("streaming oracle flagged {} {} {:#x} but the list oracle accepts it", dir.family(), TYPES[ty].name, x)),
-                Err(m) => {
-                    let sig = format!("{}:{}:{:#x}", dir.family(), TYPES[ty].name, x);
+            let replay = json!({"kind": dir.family(), "type": TYPES[ty].name, "bits": format!("{x:#x}")});
+            let sig = format!("{}:{}:{:#x}", dir.family(), TYPES[ty].name, x);
+            match guard::call(move || diagnose_mask(ty, dir, x)) {
+                Ok(Ok(())) => run.machinery_failure(&format!("streaming oracle flagged {} {} {:#x} but the list oracle accepts it", dir.family(), TYPES[ty].name, x)),
+                Ok(Err(m)) => {
                     let summary = format!("{m} [types with at least one failing mask: {}]", failing_types.join(","));
-                    run.violation(Violation::new(sig, summary, json!({"kind": dir.family(), "type": TYPES[ty].name, "bits": format!("{x:#x}")})));
+                    run.violation(Violation::new(sig, summary, replay));
                 }
+                Err(h) => stuck = Some((ty, x, h)),
             }
+        }
+        if let Some((ty, x, h)) = stuck {
+            let head = mask_head(ty, dir, x);
+            run.violation(Violation::new(
+                format!("{}:{}:{:#x}", dir.family(), TYPES[ty].name, x),
+                format!("{head} read with next(): {}", h.text()),
+                json!({"kind": dir.family(), "type": TYPES[ty].name, "bits": format!("{x:#x}")}),
+            ));
+            abandon(run, evaluations, &head);
         }
     }
     run.cov("masks", Value::Object(mask_cov));
 
+    lap(&mut t, "masks");
     // --------------------------------------------------------------------------------- permutations
-    let maxlen = tier.pick(6usize, 7usize);
-    let maxn = tier.pick(7usize, 8usize);
-    let words = words_upto(maxlen);
-    let mut ltab: BTreeMap<[u8; 3], Vec<Vec<u8>>> = BTreeMap::new();
-    for w in &words {
-        let c = counts3(w);
-        if !ltab.contains_key(&c) {
-            let l = arrangements(w);
-            check_reference_list(&l, w);
-            // cross-check the generator with the dumbest possible one: filter all words of that length
-            let brute: Vec<Vec<u8>> = words.iter().filter(|v| v.len() == w.len() && counts3(v) == c).cloned().collect();
-            if brute != l {
-                run.machinery_failure("arrangement generator disagrees with filtering all words");
-            }
-            ltab.insert(c, l);
-        }
-    }
-    let word_list = |w: &[u8]| &ltab[&counts3(w)][..];
-
     let mut np_tot = PStats::default();
     let mut ip_tot = PStats::default();
     let mut np_first: Option<(String, Vec<i64>, String)> = None; // (elem, data, summary)
     let mut ip_first: Option<(String, Vec<i64>, String)> = None;
+    // (family, element type, data) of the first input on which a call did not return
+    let mut perm_stuck: Option<(&str, &str, Vec<i64>, guard::Hang)> = None;
 
-    let np_w = np_pass(&words, word_list);
+    let (np_w, hang) = np_pass(words, word_list);
     np_tot.add(&np_w);
     nontrivial += np_w.c[NP_DEEP];
     if let Some((idx, m)) = np_w.first {
         np_first = Some(("u8".into(), words[idx].iter().map(|&x| x as i64).collect(), m));
     }
-    let ip_w = ip_pass(&words, word_list);
-    ip_tot.add(&ip_w);
-    nontrivial += ip_w.c[IP_NONTRIVIAL];
-    if let Some((idx, m)) = ip_w.first {
-        ip_first = Some(("u8".into(), words[idx].iter().map(|&x| x as i64).collect(), m));
+    if let Some(h) = hang {
+        perm_stuck = Some(("next_permutation", "u8", words[h.index].iter().map(|&x| x as i64).collect(), h));
     }
     let np_words_tie = np_w.c[NP_TIE];
+    if perm_stuck.is_none() {
+        let (ip_w, hang) = ip_pass(words, word_list);
+        ip_tot.add(&ip_w);
+        nontrivial += ip_w.c[IP_NONTRIVIAL];
+        if let Some((idx, m)) = ip_w.first {
+            ip_first = Some(("u8".into(), words[idx].iter().map(|&x| x as i64).collect(), m));
+        }
+        if let Some(h) = hang {
+            perm_stuck = Some(("iter_permutations", "u8", words[h.index].iter().map(|&x| x as i64).collect(), h));
+        }
+    }
 
     let mut perm_inputs = 0u64;
-    for n in 0..=maxn {
-        let base: Vec<i32> = (0..n as i32).collect();
-        let l = arrangements(&base);
-        check_reference_list(&l, &base);
+    for (n, &l) in plists.iter().enumerate() {
+        if perm_stuck.is_some() {
+            break;
+        }
         perm_inputs += l.len() as u64;
-        let np = np_pass(&l, |_| &l[..]);
-        let ip = ip_pass(&l, |_| &l[..]);
+        let (np, hang) = np_pass(l, move |_| &l[..]);
         np_tot.add(&np);
+        if let Some(h) = hang {
+            perm_stuck = Some(("next_permutation", "i32", l[h.index].iter().map(|&x| x as i64).collect(), h));
+            break;
+        }
+        let (ip, hang) = ip_pass(l, move |_| &l[..]);
         ip_tot.add(&ip);
+        if let Some(h) = hang {
+            perm_stuck = Some(("iter_permutations", "i32", l[h.index].iter().map(|&x| x as i64).collect(), h));
+        }
         // permutations of <= 3 distinct elements also occur among the words: not counted twice
         if n >= 4 {
             nontrivial += np.c[NP_DEEP] + ip.c[IP_NONTRIVIAL];
@@ -1030,6 +1493,11 @@ fn main() {
             let sig = format!("{fam}:{elem}:{}", serde_json::to_string(&data).unwrap());
             run.violation(Violation::new(sig, format!("{m} [{failing} failing inputs in this family]"), json!({"kind": fam, "elem": elem, "data": data})));
         }
+    }
+    if let Some((fam, elem, data, h)) = perm_stuck {
+        let head = format!("{fam}({data:?})");
+        run.violation(Violation::new(format!("{fam}:{elem}:{}", serde_json::to_string(&data).unwrap()), format!("{head}: {}", h.text()), json!({"kind": fam, "elem": elem, "data": data})));
+        abandon(run, evaluations, &head);
     }
     run.cov(
         "permutations",
@@ -1054,8 +1522,8 @@ fn main() {
         run.machinery_failure("iter_permutations exploration is vacuous");
     }
 
+    lap(&mut t, "permutations");
     // ----------------------------------------------------------------------------------- neighbours
-    let maxgrid = 6usize;
     let mut nb_cov = serde_json::Map::new();
     let mut grids_without_cells = 0u64;
     for n in 0..=maxgrid {
@@ -1070,35 +1538,37 @@ fn main() {
         let (mut calls, mut items, mut c_full, mut c_empty, mut c_cut, mut bad) = (0u64, 0u64, 0u64, 0u64, 0u64, 0u64);
         let mut patterns: BTreeSet<u32> = BTreeSet::new();
         let mut first: Option<([usize; 4], String)> = None;
-        for n in 0..=maxgrid {
-            for m in 0..=maxgrid {
-                for i in 0..n {
-                    for j in 0..m {
-                        // oracle self-check: the offset-table oracle yields the geometric neighbour set
-                        let e = nb_expected(kind, n, m, i, j);
-                        if e.iter().copied().collect::<BTreeSet<_>>() != nb_geometric(kind, n, m, i, j) || e.len() != nb_geometric(kind, n, m, i, j).len() {
-                            run.machinery_failure("neighbour order oracle is not the geometric neighbour set");
-                        }
-                        calls += 1;
-                        match check_nb(kind, n, m, i, j) {
-                            Ok((len, pat)) => {
-                                items += len as u64;
-                                patterns.insert(pat);
-                                if len == full {
-                                    c_full += 1;
-                                } else if len == 0 {
-                                    c_empty += 1;
-                                } else {
-                                    c_cut += 1;
-                                }
-                            }
-                            Err(msg) => {
-                                bad += 1;
-                                if first.is_none() {
-                                    first = Some(([n, m, i, j], msg));
-                                }
-                            }
-                        }
+        for &[n, m, i, j] in cells.iter() {
+            // oracle self-check: the offset-table oracle yields the geometric neighbour set
+            let e = nb_expected(kind, n, m, i, j);
+            if e.iter().copied().collect::<BTreeSet<_>>() != nb_geometric(kind, n, m, i, j) || e.len() != nb_geometric(kind, n, m, i, j).len() {
+                run.machinery_failure("neighbour order oracle is not the geometric neighbour set");
+            }
+        }
+        // every cell of every grid, each call on a watched worker thread
+        let (done, hang) = guard::map(cells.len(), 16, false, move |idx| {
+            let [n, m, i, j] = cells[idx];
+            check_nb(kind, n, m, i, j)
+        })
+        .completed();
+        for (idx, r) in done.into_iter().enumerate() {
+            calls += 1;
+            match r {
+                Ok((len, pat)) => {
+                    items += len as u64;
+                    patterns.insert(pat);
+                    if len == full {
+                        c_full += 1;
+                    } else if len == 0 {
+                        c_empty += 1;
+                    } else {
+                        c_cut += 1;
+                    }
+                }
+                Err(msg) => {
+                    bad += 1;
+                    if first.is_none() {
+                        first = Some((cells[idx], msg));
                     }
                 }
             }
@@ -1114,14 +1584,21 @@ fn main() {
         if let Some((g, msg)) = first {
             let sig = format!("{kind}:n={},m={},i={},j={}", g[0], g[1], g[2], g[3]);
             run.violation(Violation::new(sig, format!("{msg} [{bad} failing cells in this family]"), json!({"kind": kind, "n": g[0], "m": g[1], "i": g[2], "j": g[3]})));
-        } else if c_full == 0 || c_empty == 0 || c_cut == 0 || patterns.len() < 9 {
+        } else if hang.is_none() && (c_full == 0 || c_empty == 0 || c_cut == 0 || patterns.len() < 9) {
             run.machinery_failure(&format!("{kind} exploration is vacuous"));
+        }
+        if let Some(h) = hang {
+            let g = cells[h.index];
+            let head = format!("iter_{kind}(n={}, m={}, i={}, j={})", g[0], g[1], g[2], g[3]);
+            run.violation(Violation::new(format!("{kind}:n={},m={},i={},j={}", g[0], g[1], g[2], g[3]), format!("{head}: {}", h.text()), json!({"kind": kind, "n": g[0], "m": g[1], "i": g[2], "j": g[3]})));
+            abandon(run, evaluations, &head);
         }
     }
     nb_cov.insert("grids".into(), json!(format!("all n x m with n, m in 0..={maxgrid}, every cell")));
     nb_cov.insert("grids_without_cells".into(), json!(grids_without_cells));
     run.cov("neighbours", Value::Object(nb_cov));
 
+    lap(&mut t, "neighbours");
     // ------------------------------------------------------------------------------------- evidence
     run.cov("evaluations", evaluations);
     run.cov("distinct_nontrivial", nontrivial);
@@ -1132,13 +1609,16 @@ fn main() {
     run.cov(
         "rule",
         format!(
-            "every input of the stated spaces, each once, simplest first: masks = every bit pattern of u8,i8,u16,i16 and, for u32..i128/usize/isize, every mask whose free bits (set bits for submasks, zero bits for supermasks) are a subset of size <= {max_free_wide} of positions {{0,1,2,7,8,15,16,31,32,63,64,127}} below the width; sequences = every word over {{0,1,2}} of length 0..={maxlen} (u8) and every permutation of 0..n for n <= {maxn} (i32), each fed to next_permutation once and to iter_permutations once; neighbours = every cell of every grid 0..=6 x 0..=6 for the three iterators. evaluations = calls of the real function compared with the reference. distinct_nontrivial = measured number of those inputs on which the real code took a non-degenerate path: masks that yielded >= 3 items, next_permutation calls that changed a position before the last two, iter_permutations calls that yielded >= 3 arrangements (for permutations of distinct elements only n >= 4 is counted, smaller ones recur among the words), neighbour cells whose list was non-empty but cut by the bounds"
+            "every input of the stated spaces, each once, simplest first: masks = every bit pattern of u8,i8,u16,i16 and, for u32..i128/usize/isize, every mask whose free bits (set bits for submasks, zero bits for supermasks) are a subset of size <= {max_free_wide} of positions {{0,1,2,7,8,15,16,31,32,63,64,127}} below the width; sequences = every word over {{0,1,2}} of length 0..={maxlen} (u8) and every permutation of 0..n for n <= {maxn} (i32), each fed to next_permutation once and to iter_permutations once; neighbours = every cell of every grid 0..=6 x 0..=6 for the three iterators. evaluations = calls of the real function compared with the reference. distinct_nontrivial = measured number of those inputs on which the real code took a non-degenerate path: masks that yielded >= 3 items, next_permutation calls that changed a position before the last two, iter_permutations calls that yielded >= 3 arrangements (for permutations of distinct elements only n >= 4 is counted, smaller ones recur among the words), neighbour cells whose list was non-empty but cut by the bounds. ITERATOR PROTOCOL (run first; cases counted in evaluations, inputs not counted again in distinct_nontrivial): the passes above read every iterator with next() only; an iterator type can override any provided method of Iterator (fold, nth, count, last, size_hint, min, ...) and std's adaptors are built on those, so for every iterator the crate hands out a family of inputs is consumed in every std way and each observation list must equal the one the plain Vec iterator over the definition's sequence gives: next() to the end with size_hint() bounds before every call and three calls behind the first None (which may only yield items of the sequence; None for a FusedIterator); fold, for_each, count, last, sum and product (into a harness type, order-sensitive digest), min, max, reduce, collect into Vec / BTreeSet / HashSet, eq, zip, chain().fold, peekable, fuse; nth(k) [+ size_hint after it], skip(k) pulled and skip(k).fold, by_ref().take(k) then the rest, all / any / find / position of the item k ahead (then next()), step_by(1,2,3,5) — each on a fresh iterator and after j next() calls, for every pair j <= j+k <= length+1 when the sequence has at most {full} items, otherwise for j, j+k in {{0,1,2,3, length-3..length+1, middle-1..middle+1}} (middle = where mask items cross the top bit); every way stops at the first None it is handed; rev / next_back / rfold / nth_back and len() are compared too if the type the caller sees implements DoubleEndedIterator / ExactSizeIterator (an `impl Iterator` return type shows neither). Protocol inputs: masks = for submasks and supermasks of all 12 types, free-bit sets: every set (8-bit types), every set of <= 3 bits (16-bit types), every subset of <= 4 of the positions {{0,1,2,7,8,15,16,31,32,63,64,127}} below the width and for each size 5..=8 the first {per_size} such subsets without and with the top bit (types of 16 bits and more) — so every type, negative and non-negative masks, every size class 1..256 items; iter_permutations = every word over {{0,1,2}} shorter than {maxlen}, the ascending and descending arrangement of every multiset of length {maxlen}, every permutation of <= 4 distinct elements, ascending and descending order of 5..={pmax} distinct elements; neighbours = every cell of every grid 0..=6 x 0..=6 for the three iterators. WATCHDOG: every call into the crate runs on a watched thread; a call that uses more than {cpu} s of its own processor time (or {wall} s of wall time) without returning is reported as a violation 'does not terminate' for the smallest such input, the rest of the enumeration is abandoned, and the replay reports the same"
+            , full = protocol::FULL_GRID_MAX, per_size = proto_per_size, pmax = tier.pick(6, maxn), cpu = guard::CPU_LIMIT_S, wall = guard::WALL_LIMIT_S
         ),
     );
     run.assume("the fixed order of the neighbour iterators is taken from the crate's own tests (/repo/rlib/iter/tests/tests.rs): offsets (0,1),(-1,0),(0,-1),(1,0) / (-1,1),(-1,-1),(1,-1),(1,1) / (0,1),(-1,1),(-1,0),(-1,-1),(0,-1),(1,-1),(1,0),(1,1) as (row,column) deltas, filtered to the grid; the engine checks that its oracle reproduces those test literals and that it equals the geometric neighbour set");
     run.assume("masks are compared as unsigned bit patterns of the type's own width (signed items are reinterpreted with `as`), as the property states");
     run.assume(&format!("usize/isize are {}-bit on this target", usize::BITS));
     run.assume("wide-type masks are structured (bounded free bits over 12 boundary positions), not all masks; 8- and 16-bit types are complete");
+    run.assume("the iterator protocol is run on reduced input families (stated in `rule`), not on every input of the next()-only passes");
+    run.assume("a call into the crate that never returns cannot be told from a very slow one without a clock: the watchdog's verdict 'does not terminate' means 'used more than the stated processor time of its own thread (per-thread clock of the kernel, so machine load does not count) where every case of this engine takes micro- to milliseconds'");
 
     // samples (plain calls; VERIF_SEED only rotates which ones are shown)
     let s = seed as usize;
@@ -1175,9 +1655,11 @@ fn main() {
         run.sample(json!({"call": format!("iter_neighbours_8({n},{m},{i},{j})"), "yielded": format!("{:?}", nb_real("neighbours_8", n, m, i, j))}));
         run.sample(json!({"call": format!("iter_neighbours_4d({n},{m},{i},{j})"), "yielded": format!("{:?}", nb_real("neighbours_4d", n, m, i, j))}));
     }
+    lap(&mut t, "evidence and samples");
     if std::env::var("VCORE_CHILD").is_err() {
         // the same enumeration in a build with debug assertions and overflow checks
         run.run_dbg_child();
+        lap(&mut t, "second pass in the dbg profile");
     }
     run.finish(&confirm)
 }
